@@ -22,6 +22,7 @@ f(A) X, same tolerance.  Case fields "kiters" / "ktol" give max_iters / tol of t
 """
 import collections
 import json
+import os
 import random
 import warnings
 from fractions import Fraction
@@ -37,6 +38,8 @@ import treecheck
 warnings.simplefilter("ignore")
 
 MODULE = "ColaVerif.Properties.C09"
+# round 5: property sub-modules, gated in addition to the main module (their obligations are added to the evidence)
+SUB_MODULES = ["ColaVerif.Properties.C09.Arnoldi", "ColaVerif.Properties.C09.SoundEWitness"]
 DRIVER = "DriverC09.lean"
 
 # ---- recorded clauses.  All findings of this check are recorded in /verif/known_findings.json (scalar-times-annotated,
@@ -2086,6 +2089,139 @@ def identities_early(ctx, rng, nprng, N):
     return dict(checked)
 
 
+# ------------------------------------------------------------------------------------------------ scale family (round 5)
+# The Krylov operators LanczosUnary / ArnoldiUnary return  Q P (f(theta) * w),  w = P^-1 e1 * ||v||  (`_weighted`, unary.py).
+# The model (KrylovPoly.krylovVec / weighted) and the specification f(A) v are LINEAR in v: f(A)(c v) = c f(A) v for every
+# scalar c, and the guard of `_weighted` drops a Ritz pair only when its weight is EXACTLY zero (KrylovPoly.weighted: `w = 0`).
+# The weights carry the norm of the operand, so any ABSOLUTE threshold on them (e.g. `abs(w) <= eps`) breaks homogeneity for
+# operands of small norm and drops dominant terms f(theta_j) w_j with a tiny w_j and a huge f(theta_j).  The other Krylov
+# streams draw operands of norm O(1) only; this family scales them.
+SCALES = [1e-8, 1e-17, 1e-30]
+SCALE_ALPHAS = [Fraction(-2), Fraction(5, 2), Fraction(-1, 2), Fraction(1, 3), Fraction(10)]      # no integer shortcut: always apply_unary(x ** alpha)
+SMALL_REL = [(1e-9, 1e-8), (1e-8, 1e-9)]     # (relative component on the largest eigenvalue, norm of the operand): weight = 1e-17 either way
+
+
+def xrows_of(X):
+    X = np.asarray(X)
+    if np.iscomplexobj(X):
+        return [[[float(z.real), float(z.imag)] for z in row] for row in X]
+    return [[float(z) for z in row] for row in X]
+
+
+def scale_family(ctx, rng, nprng, N):
+    """HOMOGENEITY of the Krylov paths in the operand, and small components on eigenvalues where f is huge (model-free on the
+    real side: the expected value is the numerical specification scipy f(M) / numpy eigh, scaled).
+    * scale-single / scale-batch: Dense leaves as in the main stream (PD for Lanczos(n, 1e-12); right-half-plane non-normal,
+      PD or complex for Arnoldi(n) / Arnoldi(n, 1e-12)), size 2-7, exp / log / sqrt / isqrt / pow(-2, 5/2, -1/2, 1/3, 10) /
+      apply_unary(4 functions), a generic operand v of norm O(1); for every c in SCALES the call on the 1-D operand c v, and
+      on the two-column operand [w, c v] next to a generic O(1) column w, must equal c * f(M) v (and f(M) w) — error of each
+      column relative to the max-norm of ITS expected column, tolerance TOL_KRYLOV as for the unscaled case.
+    * small-component: PD matrices with n - 1 eigenvalues in [0.5, 4] and the largest in [30, 36], f = exp, operand of norm
+      1e-8 / 1e-9 with a relative component 1e-9 / 1e-8 along the eigenvector of the largest eigenvalue (absolute weight
+      1e-17): exp(36) * 1e-9 dominates the result by a factor 2e2 .. 5e4; Lanczos(n, 1e-12) / Arnoldi(n, 1e-12) (with the
+      default relative tolerance 1e-7 of Arnoldi the run may legitimately stop before it resolves a 1e-9 component: outside
+      the quantifier 'run to the full Krylov dimension').  Expected: numpy eigh of the symmetric matrix (f(M) v = Q exp(l) Q^H v);
+      observed rounding error on the unchanged code <= 7e-7 (= eps / relative component, 1200 cases), tolerance TOL_KRYLOV."""
+    G = Gen9(rng, nprng)
+    checked = collections.Counter()
+    reported = collections.Counter()
+    worst = 0.0
+
+    def report(what, case, err, extra):
+        reported[case["stream"]] += 1
+        checked["failed:" + case["stream"]] += 1
+        if reported[case["stream"]] <= 2:       # two replays per sub-family are enough
+            common.violation(ctx, dict({"identity": what, "case": case, "error": err, "tolerance": TOL_KRYLOV}, **extra))
+
+    def columns_err(Y, E):
+        Y, E = np.asarray(Y), np.asarray(E)
+        if Y.shape != E.shape:
+            return np.inf
+        if Y.ndim == 1:
+            return relerr(Y, E)
+        return max(relerr(Y[:, j], E[:, j]) for j in range(E.shape[1]))
+
+    for t in range(N):
+        n = rng.randint(2, 7)
+        algn = rng.choice(["lanczos", "arnoldi"])
+        cls = "pd" if algn == "lanczos" else rng.choice(["rhp", "pd", "cplx"])
+        e = G.dense_leaf(n, cls)
+        if algn == "lanczos" and e[0] != "ann":
+            e = ["ann", "PSD", e]
+        fn = rng.choice(["exp", "log", "sqrt", "isqrt", "pow", "apply"])
+        base = {"op": e, "alg": algn, "fn": fn, "kiters": n, "cls": cls, "stream": "scale"}
+        if algn == "lanczos" or rng.random() < 0.5:
+            base["ktol"] = 1e-12
+        if fn == "pow":
+            al = rng.choice(SCALE_ALPHAS)
+            base["alpha"] = {"q": [al.numerator, al.denominator]}
+        if fn == "apply":
+            base["ufn"] = rng.choice(["exp", "log", "cube", "poly"])
+        try:
+            A = build.Builder().build(e)
+            M = np.asarray(A.to_dense())
+            S = spec_dense(base, M)
+            F = call_real(base, A)
+        except Exception as ex_:  # noqa: BLE001
+            ctx.notes.append(f"scale stream (setup): {type(ex_).__name__}: {str(ex_)[:120]}")
+            continue
+        cplx = np.iscomplexobj(M) or rng.random() < 0.2
+        v = nprng.standard_normal(n) + (1j * nprng.standard_normal(n) if cplx else 0)
+        w = nprng.standard_normal(n) + (1j * nprng.standard_normal(n) if cplx else 0)
+        xdt = "c128" if cplx else "f64"
+        Sv, Sw = S @ v, S @ w
+        for c in SCALES:
+            for batch in (False, True):
+                X = np.stack([w, c * v], axis=1) if batch else (c * v)
+                E = np.stack([Sw, c * Sv], axis=1) if batch else (c * Sv)
+                name = "scale-batch" if batch else "scale-single"
+                case = dict(base, x=xrows_of(X if batch else X[:, None]), vec=not batch, xdt=xdt, stream=name)
+                try:
+                    err, detail = columns_err(F @ X, E), None
+                except Exception as ex_:  # noqa: BLE001
+                    err, detail = np.inf, f"the call raised {type(ex_).__name__}: {str(ex_)[:200]}"
+                checked[name] += 1
+                if err <= TOL_KRYLOV:
+                    worst = max(worst, err)
+                else:
+                    report("f(A) @ (c v) = c * (f(A) @ v): the Krylov paths are homogeneous in the operand (a Ritz pair is dropped only when its weight is "
+                           "exactly zero)" + (", second column of [w, c v]" if batch else ""), case, err, {"scale": c, "detail": detail})
+    # small component on an eigenvalue where f is huge
+    for t in range(max(N // 2, 1)):
+        n = rng.randint(3, 7)
+        algn = rng.choice(["lanczos", "arnoldi"])
+        cplx = rng.random() < 0.3
+        lam = np.concatenate([G.eigs_pd(n - 1, 0.5, 4.0), [30.0 + 6.0 * rng.random()]])
+        Q = G.unitary(n, cplx)
+        Am = (Q * lam) @ Q.conj().T
+        Am = (Am + Am.conj().T) / 2
+        e = ["ann", "PSD", ["dense", "c128" if cplx else "f64", n, n, G.rows(Am, cplx)]]
+        co = np.array([rng.choice([-1, 1]) * (0.5 + 1.5 * rng.random()) for _ in range(n - 1)] + [0.0])
+        x = Q @ co
+        x = x / np.linalg.norm(x)
+        rel, sc = rng.choice(SMALL_REL)
+        v = sc * (x + rel * Q[:, -1])
+        case = {"op": e, "alg": algn, "fn": "exp", "kiters": n, "ktol": 1e-12, "cls": "pd", "stream": "scale-small-component",
+                "x": xrows_of(v[:, None]), "vec": True, "xdt": "c128" if cplx else "f64"}
+        try:
+            A = build.Builder().build(e)
+            M = np.asarray(A.to_dense())
+            l2, Q2 = np.linalg.eigh(M)
+            E = (Q2 * np.exp(l2)) @ (Q2.conj().T @ v)
+            err, detail = relerr(call_real(case, A) @ v, E), None
+        except Exception as ex_:  # noqa: BLE001
+            err, detail = np.inf, f"the call raised {type(ex_).__name__}: {str(ex_)[:200]}"
+        checked["scale-small-component"] += 1
+        if err <= TOL_KRYLOV:
+            worst = max(worst, err)
+        else:
+            report("exp(A) @ v = Q exp(L) Q^H v for an operand of norm %g with a relative component %g along the eigenvector of the largest eigenvalue "
+                   "(where exp is huge: the term dominates the result)" % (sc, rel), case, err, {"scale": sc, "relative_component": rel, "detail": detail})
+    out = dict(checked)
+    out["scale:max-relative-error-ok"] = worst
+    return out
+
+
 # ------------------------------------------------------------------------------------------------ entry point
 WITNESSES = [
     # exp of a singular PSD matrix on the Krylov paths (the former zero-eigenvalue mask, repaired in a523921)
@@ -2120,9 +2256,21 @@ def run(ctx):
     gate = None
     gate_err = None
     try:
-        gate = common.lean_gate(ctx, MODULE)
+        gate = dict(common.lean_gate(ctx, MODULE))
+        checked = [MODULE]
+        for mod in SUB_MODULES:
+            g = common.lean_gate(ctx, mod)
+            gate["obligations"] += g["obligations"]
+            gate["discharged"] += g["discharged"]
+            gate["theorems"] = sorted(set(gate["theorems"]) | set(g["theorems"]))
+            gate.setdefault("sub_modules", {})[mod] = {"status": "discharged", "obligations": g["obligations"]}
+            checked.append(mod)
+        files = " && ".join("lake env lean " + os.path.join("ColaVerif", *m.split(".")[1:]) + ".lean" for m in checked)
+        gate["checker_cmd"] = f"cd lean && lake build {' '.join(checked)} && {files}" + \
+            (" && " + " && ".join("lake env leanchecker " + m for m in checked) if ctx.thorough else "") + \
+            "   # kernel re-check + #print axioms audit"
     except common.LeanGateError as ex:
-        gate_err = str(ex)
+        gate, gate_err = None, str(ex)
     rng = random.Random(ctx.seed * 104729 + 9)
     nprng = np.random.default_rng(ctx.seed * 7 + 9)
     eng = Engine(ctx)
@@ -2164,8 +2312,12 @@ def run(ctx):
                 eng.account(*r)
         ident = identities(ctx, rng, nprng, 30 if not ctx.thorough else 400)
         ident.update(identities_early(ctx, erng, enprng, 24 if not ctx.thorough else 240))
+        # round 5: the scale family (own generators: the streams above see the random sequence they saw before it existed)
+        srng = random.Random(ctx.seed * 104729 + 2909)
+        snprng = np.random.default_rng(ctx.seed * 7 + 2909)
+        ident.update(scale_family(ctx, srng, snprng, 60 if not ctx.thorough else 600))
     if gate_err is not None and not ctx.violations:
-        common.violation(ctx, {"broken": f"Lean gate of {MODULE}", "detail": gate_err[-3000:]}, no_input=True)
+        common.violation(ctx, {"broken": f"Lean gate of {MODULE} / {', '.join(SUB_MODULES)}", "detail": gate_err[-3000:]}, no_input=True)
     cov = eng.coverage()
     cov["identity_checks"] = ident
     cov["rule"] = ("operator trees of size 2-8, depth <= 2, over dense leaves with generator-controlled spectra (PD: Q diag(l) Q^H, l in [0.5,4] well separated; "
@@ -2187,7 +2339,11 @@ def run(ctx):
                    "KRYLOV-EXACT stream (cls krylov-exact): integer Dense leaves 3-6 (symmetric tridiagonal+ / triangular, eigenvalue gaps >= 0.4, cond V <= 30), alone or in "
                    "a BlockDiag, cube / x^2+1 / x**10 with Lanczos(n, 1e-12) / Arnoldi(n, 1e-12), integer operand: real vs exact Krylov model vs exact spec; "
                    "DEFECT-ZERO-COLUMN stream (cls zero-column, labelled defect stream, not a contract stream): Kronecker(Diagonal with a zero entry, SelfAdjoint PD Dense leaf) "
-                   "or Kronecker(leaf, Diagonal) with an operand whose reshaped slice vanishes, pow 10 / pow 5/2 / sqrt, Lanczos(k, 1e-12) / Arnoldi(k, 1e-12)")
+                   "or Kronecker(leaf, Diagonal) with an operand whose reshaped slice vanishes, pow 10 / pow 5/2 / sqrt, Lanczos(k, 1e-12) / Arnoldi(k, 1e-12); "
+                   "SCALE family (round 5, counted under identity_checks scale-single / scale-batch / scale-small-component, model-free): Dense leaves 2-7 with "
+                   "Lanczos(n, 1e-12) / Arnoldi(n[, 1e-12]), all six functions, operands c v with c in {1e-8, 1e-17, 1e-30} alone and as second column next to an O(1) "
+                   "column: f(A)(c v) = c f(A) v per column at 1e-5 relative to that column; PD matrices with largest eigenvalue in [30, 36], f = exp, operand of norm "
+                   "1e-8 / 1e-9 with a 1e-9 / 1e-8 relative component on that eigenvalue (a Ritz weight of 1e-17 whose term dominates the result)")
     cov["provisional_known"] = PROVISIONAL_KNOWN
     cov["trusted_base_extra"] = [
         "numpy.linalg eigh/eig/inv as the parameters of the base cases when the plan is evaluated in float64 (harness/props/c09.py eval_plan); scipy.linalg expm/logm/sqrtm/fractional_matrix_power as the numerical specification",
@@ -2203,7 +2359,12 @@ def run(ctx):
         "UnOp.SoundE (contracts only: LAPACK eigendecomposition A V = V D, Vi V = 1; inv a left inverse; KrylovOK) replaces the assumption that the oracle matrix "
         "is f(A).  Round 3: for Lanczos KrylovOK is DERIVED from the loop model of C14 (C09_krylov_ok_of_lanczos; what remains assumed is EighContract = LAPACK eigh "
         "on the small tridiagonal matrix, satisfiable: eighSpectral_contract) and witnessed (C09_krylov_ok_witness, C09_lanczos_path_closed on [[2,1],[1,2]]); for "
-        "Arnoldi KrylovOK stays a contract (factorisation part: C09_arnoldi_path under C15's clauses noClip / stopExact, small eig + solve assumed); stream `krylov-exact`: the Lean driver evaluates Krylov base "
+        "Arnoldi (round 5, Properties/C09/Arnoldi.lean) KrylovOK is DERIVED for the model arnoldiK defined from C15's Arnoldi.run (C09_krylov_ok_of_arnoldi under C15's clauses "
+        "noClip / stopExact + a diagonalisable Hessenberg block; C09_krylov_ok_of_arnoldi_full for runs to the full dimension: only noClip; tol > 0; remaining contract "
+        "EigContract = LAPACK eig + solve on the small matrix, satisfiable: C09_eig_contract_satisfiable) and witnessed on the non-symmetric [[3,1],[2,2]] "
+        "(C09_arnoldi_path_closed, C09_arnoldi_ok_witness); the .inv / .product clauses of SoundE are witnessed (Properties/C09/SoundEWitness.lean); "
+        "driver's exact Krylov model vs theorem-side models: both equal p(A) v for polynomial f (C09_arnoldi_model_poly, C09_lanczos_model_poly; stream krylov-exact "
+        "compares the driver's value with the exact p(A) v); stream `krylov-exact`: the Lean driver evaluates Krylov base "
         "cases with polynomial f by the exact Krylov model (Q p(H) e1 over Q[i], invariance re-checked) -- for non-polynomial f the Krylov value is SPEC-ONLY "
         "(f(A) by numpy eig in eval_plan), compared with tolerance 1e-5",
         "stream `branch-*`: principal powers of Kronecker products of complex factors; the clause kron-pow-principal-branch is attached by the decidable predicate "
